@@ -522,50 +522,84 @@ pub fn cmd_l2a(args: &crate::Args) -> i32 {
                 let _ = std::fs::write(p, format!("{}", i));
             }
             let plan = gen_plan(mix(&[seed, 0x12a, i]), &pools.plain_metas, corpus_len);
-            let out = run_plan(&plan, &mut env, &corpus, None, &format!("l2a-c{}", shard));
-            // determinism sample: same plan + same seed => same schedule and digest;
-            // forcing the recorded schedule => no divergence, same digest
-            let mut det = (0u64, 0u64);
-            if det_stride > 0 && i % det_stride == 0 && out.harness.is_none() && out.violation.is_none() && !out.tainted {
-                let again = run_plan(&plan, &mut env, &corpus, None, &format!("l2a-c{}d", shard));
-                if !again.tainted {
-                    det.0 += 1;
-                    if again.sched_hash != out.sched_hash || again.digest != out.digest {
-                        det.1 += 1;
+            // every execution of a plan happens in its own forked process: statics / thread-locals the
+            // code under test may leave behind cannot reach the next plan (or the determinism re-runs)
+            let scratch = env.dir.join("plan.out");
+            let clean = |x: &str| x.replace(['\t', '\n'], " ");
+            let want_sched = det_stride > 0 && i % det_stride == 0;
+            let mut exec = |p: &Plan, forced: Option<Vec<(u16, u64, bool)>>, env: &mut Env| -> Result<(String, String), String> {
+                let tag = format!("l2a-c{}", shard);
+                let r = crate::fork::isolated(&scratch, std::time::Duration::from_secs(900), || {
+                    let out = run_plan(p, env, &corpus, forced, &tag);
+                    let sites: Vec<String> = out.switches_by_site.iter().map(|x| x.to_string()).collect();
+                    format!(
+                        "R\t{}\t{:x}\t{:x}\t{}\t{}\t{}\t{}\t{}\t{}\t{}\t{}\t{}\t{}\t{}\t{}\t{}\n{}",
+                        i,
+                        out.sched_hash,
+                        out.digest,
+                        out.switches,
+                        out.total_yields,
+                        out.keys_compared,
+                        out.nthreads,
+                        out.strategy.to_text(),
+                        out.tainted as u8,
+                        out.forced_unblock,
+                        out.stats.vacuous,
+                        out.diverged as u8,
+                        0,
+                        sites.join(","),
+                        out.harness.as_deref().map(clean).unwrap_or_default(),
+                        out.violation.as_ref().map(|v| format!("{}\x1f{}\x1f{}", v.oracle, clean(&v.class), clean(&v.detail))).unwrap_or_default(),
+                        schedule_text(&out.schedule)
+                    )
+                });
+                match r {
+                    crate::fork::ForkOut::Ok(t) => {
+                        let (line, sched) = t.split_once('\n').unwrap_or((t.as_str(), ""));
+                        Ok((line.to_string(), sched.to_string()))
                     }
+                    crate::fork::ForkOut::Died(d) => Err(d),
                 }
-                let mut p2 = plan.clone();
-                p2.strategy = out.strategy.clone();
-                let forced = run_plan(&p2, &mut env, &corpus, Some(out.schedule.clone()), &format!("l2a-c{}f", shard));
-                if !forced.tainted {
-                    det.0 += 1;
-                    if forced.diverged || forced.sched_hash != out.sched_hash || forced.digest != out.digest {
-                        det.1 += 1;
+            };
+            match exec(&plan, None, &mut env) {
+                Ok((line, sched)) => {
+                    let f: Vec<&str> = line.split('\t').collect();
+                    let clean_run = f.len() >= 17 && f[15].is_empty() && f[16].is_empty() && f[9] == "0";
+                    let mut det = (0u64, 0u64);
+                    if want_sched && clean_run {
+                        // determinism sample: same plan + same seed => same schedule and digest;
+                        // forcing the recorded schedule => no divergence, same digest
+                        if let Ok((l2, _)) = exec(&plan, None, &mut env) {
+                            let g: Vec<&str> = l2.split('\t').collect();
+                            if g.len() >= 17 && g[9] == "0" {
+                                det.0 += 1;
+                                if g[2] != f[2] || g[3] != f[3] {
+                                    det.1 += 1;
+                                }
+                            }
+                        }
+                        let mut p2 = plan.clone();
+                        if let Some((pp, _)) = Plan::from_lines(&[format!("strategy {}", f[8])]) {
+                            p2.strategy = pp.strategy;
+                        }
+                        let forced: Option<Vec<(u16, u64, bool)>> = Plan::from_lines(&[format!("schedule {}", sched)]).and_then(|x| x.1);
+                        if let Ok((l3, _)) = exec(&p2, forced, &mut env) {
+                            let g: Vec<&str> = l3.split('\t').collect();
+                            if g.len() >= 17 && g[9] == "0" {
+                                det.0 += 1;
+                                if g[12] == "1" || g[2] != f[2] || g[3] != f[3] {
+                                    det.1 += 1;
+                                }
+                            }
+                        }
                     }
+                    let _ = writeln!(t, "{}", line);
+                    let _ = writeln!(t, "D\t{}\t{}\t{}", i, det.0, det.1);
+                }
+                Err(d) => {
+                    let _ = writeln!(t, "R\t{}\t0\t0\t0\t0\t0\t0\trandom:1\t0\t0\t0\t0\t0\t\tplan process died: {}\t", i, clean(&d));
                 }
             }
-            let clean = |x: &str| x.replace(['\t', '\n'], " ");
-            let sites: Vec<String> = out.switches_by_site.iter().map(|x| x.to_string()).collect();
-            let _ = writeln!(
-                t,
-                "R\t{}\t{:x}\t{:x}\t{}\t{}\t{}\t{}\t{}\t{}\t{}\t{}\t{}\t{}\t{}\t{}\t{}",
-                i,
-                out.sched_hash,
-                out.digest,
-                out.switches,
-                out.total_yields,
-                out.keys_compared,
-                out.nthreads,
-                out.strategy.to_text(),
-                out.tainted as u8,
-                out.forced_unblock,
-                out.stats.vacuous,
-                det.0,
-                det.1,
-                sites.join(","),
-                out.harness.as_deref().map(clean).unwrap_or_default(),
-                out.violation.as_ref().map(|v| format!("{}\x1f{}\x1f{}", v.oracle, clean(&v.class), clean(&v.detail))).unwrap_or_default()
-            );
             i += of;
         }
         t.push_str("DONE\n");
@@ -604,6 +638,7 @@ pub fn cmd_l2a(args: &crate::Args) -> i32 {
         }
     }
     let mut all: Vec<Sum> = Vec::new();
+    let mut det_lines: Vec<(u64, u64, u64)> = Vec::new();
     for (_, _, outp, _) in &children {
         let text = std::fs::read_to_string(outp).unwrap_or_default();
         if !text.ends_with("DONE\n") {
@@ -611,6 +646,10 @@ pub fn cmd_l2a(args: &crate::Args) -> i32 {
         }
         for l in text.lines() {
             let f: Vec<&str> = l.split('\t').collect();
+            if f[0] == "D" && f.len() >= 4 {
+                det_lines.push((f[1].parse().unwrap_or(0), f[2].parse().unwrap_or(0), f[3].parse().unwrap_or(0)));
+                continue;
+            }
             if f[0] != "R" || f.len() < 17 {
                 continue;
             }
@@ -651,7 +690,7 @@ pub fn cmd_l2a(args: &crate::Args) -> i32 {
                 forced_unblock: f[10].parse().unwrap_or(0),
             };
             let plan = gen_plan(mix(&[seed, 0x12a, i]), &pools.plain_metas, corpus_len);
-            all.push(Sum { i, out, plan, det: (f[12].parse().unwrap_or(0), f[13].parse().unwrap_or(0)) });
+            all.push(Sum { i, out, plan, det: (0, 0) });
         }
     }
     let _ = std::fs::remove_dir_all(&dir);
@@ -659,8 +698,8 @@ pub fn cmd_l2a(args: &crate::Args) -> i32 {
         early_harness.push(format!("only {} of {} plans were executed", all.len(), runs));
     }
     all.sort_by_key(|s| s.i);
-    let det_pairs: u64 = all.iter().map(|s| s.det.0).sum();
-    let det_mismatch: u64 = all.iter().map(|s| s.det.1).sum();
+    let det_pairs: u64 = det_lines.iter().map(|d| d.1).sum();
+    let det_mismatch: u64 = det_lines.iter().map(|d| d.2).sum();
     let mut exit = 0;
     let mut stats = Stats::default();
     let mut scheds: BTreeSet<u64> = BTreeSet::new();
@@ -732,7 +771,7 @@ pub fn cmd_l2a(args: &crate::Args) -> i32 {
                 if attempt > 0 {
                     q.sched_seed = mix(&[plan.sched_seed, 0x7e7, attempt]);
                 }
-                let o = run_plan(&q, env, &corpus, None, "l2a-rep");
+                let o = run_plan_isolated(&q, env, &corpus, None, "l2a-rep");
                 if o.violation.as_ref().map(|x| x.signature() == sig).unwrap_or(false) {
                     best_sched = o.schedule;
                     realised = o.strategy;
@@ -751,7 +790,7 @@ pub fn cmd_l2a(args: &crate::Args) -> i32 {
                 for k in 0..12u64 {
                     let mut q = p.clone();
                     q.sched_seed = mix(&[p.sched_seed, k]);
-                    let o = run_plan(&q, env, &corpus, None, "l2a-min");
+                    let o = run_plan_isolated(&q, env, &corpus, None, "l2a-min");
                     if o.violation.as_ref().map(|x| x.signature() == sig).unwrap_or(false) {
                         return Some(o.schedule);
                     }
@@ -790,7 +829,7 @@ pub fn cmd_l2a(args: &crate::Args) -> i32 {
                 }
             }
             // the seed used by `still` is not recorded: re-derive the failing schedule by forcing it
-            let o = run_plan(&plan, env, &corpus, Some(best_sched.clone()), "l2a-min");
+            let o = run_plan_isolated(&plan, env, &corpus, Some(best_sched.clone()), "l2a-min");
             if !o.violation.as_ref().map(|x| x.signature() == sig).unwrap_or(false) {
                 // fall back to the original, unminimised failure
                 plan = orig_plan.clone();
@@ -868,6 +907,52 @@ pub fn cmd_l2a(args: &crate::Args) -> i32 {
     exit
 }
 
+/// A plan execution in a forked process; returns the violation (if any), the executed schedule and
+/// the realised strategy.
+#[cfg(feature = "threads")]
+pub struct IsoOut {
+    pub violation: Option<Violation>,
+    pub schedule: Vec<(u16, u64, bool)>,
+    pub strategy: Strategy,
+    pub tainted: bool,
+    pub diverged: bool,
+    pub harness: Option<String>,
+}
+
+#[cfg(feature = "threads")]
+pub fn run_plan_isolated(plan: &Plan, env: &mut Env, corpus: &Arc<Vec<String>>, forced: Option<Vec<(u16, u64, bool)>>, tag: &str) -> IsoOut {
+    let scratch = env.dir.join("iso-plan.out");
+    let clean = |x: &str| x.replace(['\t', '\n'], " ");
+    let r = crate::fork::isolated(&scratch, std::time::Duration::from_secs(900), || {
+        let o = run_plan(plan, env, corpus, forced, tag);
+        format!(
+            "{}\n{}\n{}\n{}\n{}\n{}",
+            o.violation.as_ref().map(|v| format!("{}\x1f{}\x1f{}", v.oracle, clean(&v.class), clean(&v.detail))).unwrap_or_default(),
+            schedule_text(&o.schedule),
+            o.strategy.to_text(),
+            o.tainted as u8,
+            o.diverged as u8,
+            o.harness.as_deref().map(clean).unwrap_or_default()
+        )
+    });
+    match r {
+        crate::fork::ForkOut::Ok(t) => {
+            let l: Vec<&str> = t.split('\n').collect();
+            let violation = if l.first().map(|x| x.is_empty()).unwrap_or(true) {
+                None
+            } else {
+                let p: Vec<&str> = l[0].split('\x1f').collect();
+                let oracle: &'static str = Box::leak(p[0].to_string().into_boxed_str());
+                Some(Violation { oracle, class: p.get(1).unwrap_or(&"").to_string(), detail: p.get(2).unwrap_or(&"").to_string(), op_index: 0 })
+            };
+            let schedule = Plan::from_lines(&[format!("schedule {}", l.get(1).unwrap_or(&""))]).and_then(|x| x.1).unwrap_or_default();
+            let strategy = Plan::from_lines(&[format!("strategy {}", l.get(2).unwrap_or(&"random:1"))]).map(|x| x.0.strategy).unwrap_or(Strategy::Random { mean: 1.0 });
+            IsoOut { violation, schedule, strategy, tainted: l.get(3) == Some(&"1"), diverged: l.get(4) == Some(&"1"), harness: l.get(5).filter(|x| !x.is_empty()).map(|x| x.to_string()) }
+        }
+        crate::fork::ForkOut::Died(d) => IsoOut { violation: None, schedule: vec![], strategy: plan.strategy.clone(), tainted: false, diverged: false, harness: Some(format!("plan process died: {}", d)) },
+    }
+}
+
 #[cfg(feature = "threads")]
 pub fn replay_l2a(f: &crate::runner::ReplayFile) -> i32 {
     let Some((plan, forced)) = Plan::from_lines(&f.body) else {
@@ -882,13 +967,13 @@ pub fn replay_l2a(f: &crate::runner::ReplayFile) -> i32 {
         }
     };
     let corpus = Arc::new(env.corpus.clone());
-    let mut o = run_plan(&plan, &mut env, &corpus, forced.clone(), "l2a-replay");
+    let mut o = run_plan_isolated(&plan, &mut env, &corpus, forced.clone(), "l2a-replay");
     // a run in which a thread blocked on a lock cannot be replayed exactly: allow a few attempts
     let mut attempts = 1;
     while o.violation.is_none() && o.harness.is_none() && (o.tainted || f.swarm.contains("tainted")) && attempts < 6 {
         let mut p = plan.clone();
         p.sched_seed = mix(&[plan.sched_seed, attempts]);
-        o = run_plan(&p, &mut env, &corpus, if attempts % 2 == 0 { forced.clone() } else { None }, "l2a-replay");
+        o = run_plan_isolated(&p, &mut env, &corpus, if attempts % 2 == 0 { forced.clone() } else { None }, "l2a-replay");
         attempts += 1;
     }
     if let Some(h) = o.harness {
